@@ -1,6 +1,7 @@
 # C05 Only a valid, unexpired, untampered connect token from its own address connects
 import re
 from sa.rules import *
+import rules.shared as shared
 from rules.netcode_common import *
 
 def is_param(o, name_pat):
@@ -147,4 +148,5 @@ def rules(t):
         if not st: r.bad("state", None, "expired pending session is not marked Disconnected")
     if not list(t.effects("pending_clients", {"retain"}, u)): r.bad("retain", None, "no retain() dropping disconnected pending sessions")
     out.append(r)
+    out.append(shared.aad_rule(t, "C05.f", "token"))
     return out
